@@ -127,6 +127,11 @@ class Evaluator:
 
     def _length(self, op, depth=0):
         op = self._through(op)
+        if "p" in op and not [x for x in op["p"][1:] if x != "*"]:
+            # a fixed-size array (or a reference to one): the length is in the type
+            m_ = re.match(r"^(?:&(?:'\w+ )?(?:mut )?)*\[[^;\[\]]+; (\d+)\]$", self.fn.locals[op["p"][0]])
+            if m_:
+                return Lin(None, int(m_.group(1)))
         if "p" in op and len([x for x in op["p"][1:] if x != "*"]) == 0 and depth < 8:
             l = op["p"][0]
             cs = self.calls_by_dest.get(l, [])
